@@ -92,6 +92,39 @@ Events(t, props) ==
              THEN [ev |-> IF n[i].fm # 0 THEN "fmt" ELSE "value", s |-> First(props, n[i].l), l |-> n[i].l]
              ELSE [ev |-> "label", s |-> "", l |-> n[i].l]]
 
+\* Output channels.  The statement quantifies over every way the crate offers to get the
+\* rendered text out; level A is the same text for all of them.  (A channel name is bound to
+\* real code by the harness, which refuses names it does not know and requires every name it
+\* knows: the two lists cannot drift apart silently.)
+RenderChannels == {
+    "display",            \* Display / to_string of Render
+    "formatter",          \* Render::write into a fmt::Formatter
+    "string",             \* Render::write into a String
+    "default-writer",     \* Render::write into a writer with only the trait defaults
+    "with_props",         \* render(Empty).with_props(props)
+    "to_value",           \* ToValue for Render, then Display of the Value
+    "to_value-serde",     \* ... then serde of the Value
+    "serde-json",         \* serde::Serialize for Render through serde_json::to_string
+    "serde-collect",      \* serde::Serialize for Render through serde_json::to_value
+    "sval",               \* sval::Value for Render into a collecting Stream
+    "sval-ref",           \* sval_ref::ValueRef for Render into a collecting Stream
+    "sval-json",          \* sval::Value for Render through sval_json
+    "debug"}              \* Debug of Render: the text, quoted
+TemplateChannels == {
+    "display", "to_value", "to_value-serde", "serde-json", "serde-collect",
+    "sval", "sval-ref", "sval-json", "debug"}
+\* Debug quotes and escapes; the model's characters need no escape
+Quoted(txt) == "\"" \o txt \o "\""
+RenderVia(ch, t, props) == IF ch = "debug" THEN Quoted(Render(t, props)) ELSE Render(t, props)
+\* a Template on its own is its text with every hole as `{label}`
+TemplateVia(ch, t) == RenderVia(ch, t, <<>>)
+\* as_literal (Template and Render): the text when the template is one text part, nothing when
+\* it has a hole; several hole-free parts: the statement does not say ("d")
+AsLiteral(t) ==
+    IF \E i \in 1..Len(t) : t[i].k = "H" THEN [v |-> "none", s |-> ""]
+    ELSE IF Len(t) = 1 THEN [v |-> "some", s |-> Render(t, <<>>)]
+    ELSE [v |-> "d", s |-> Render(t, <<>>)]
+
 -----------------------------------------------------------------------------
 (* bytes *)
 RECURSIVE PrefixLen(_, _)
